@@ -16,7 +16,8 @@ RULE = ("random: command trees from vp/gen_cmd.py (hyphen=0.3, flag_subs=0.3) de
         "non-trivial when the engine returned at least one candidate; distinct = distinct case text.")
 TRUSTED = [
     "Coq 8.16.1 kernel (coqc); no native_compute; theorems C18_* are 'Closed under the global context' (no axioms, also no "
-    "standard-library axioms); round-2 proofs reuse ParseProofs/{Spelling,Dispatch,ErrorSound}.v of C08/C09/C10",
+    "standard-library axioms); round-2/3 proofs reuse ParseProofs/{Spelling,Dispatch,ErrorSound,Chain,Actions,ActionsLoop,ActionsTop,UnparseProofs}.v "
+    "of C08/C09/C10/C07/C02 (imported, unchanged)",
     "extraction: ExtrOcamlBasic only, no Extract Constant; OCaml driver ocaml/dynamic_driver.ml + common_parse/spec.ml",
     "correspondence: vp/props/c18.py generators, harness/src/modes/dynamic.rs, multiset comparison of (value, hidden) candidates",
     "modelled not verified: Parse/Build.v blocks of Command::_build_self and Parse/Valid.v assert_app (shared parser model), "
@@ -30,30 +31,42 @@ ASSUMPTIONS = [
     "the final stable sort by (tag, display order) is not modelled: candidate lists are compared as multisets",
     "pos_index/count arithmetic is unbounded N in the model (bounded by the number of argv words in the code)",
 ]
-TECHNIQUE = ("Coq proof (totality incl. fuel, soundness, completeness of the engine model; acceptance of every offered "
-             "option/subcommand candidate by the PARSER model; level correspondence) + extracted-model/implementation correspondence")
-LEVEL_TEXT = ("Machine-checked theorems (Coq 8.16, 36 pinned, all closed under the global context) about a function-by-function "
+TECHNIQUE = ("Coq proof (totality incl. fuel, soundness, completeness of the engine model; simulation between the engine's shadow "
+             "parse and the PARSER model's token loop along option prefixes and subcommand names; end-to-end acceptance of every "
+             "offered option/subcommand candidate by parse_top on whole lines; level correspondence) + extracted-model/implementation "
+             "correspondence")
+LEVEL_TEXT = ("Machine-checked theorems (Coq 8.16, 54 pinned, all closed under the global context) about a function-by-function "
               "model of clap_complete::engine::complete: no panic site is reachable and no fuel runs out for any command, argv "
               "and index (build_full's fuel proved sufficient); in state ValueDone every option/subcommand candidate extends the "
               "word and names an option/alias/subcommand of the level reached by the shadow parse; under assert_app's uniqueness "
-              "the engine's flag resolution equals the parser model's key lookup (same argument), and every offered candidate, "
-              "given to the parser model's token loop (Parse/Parser.v: parse_long_arg / parse_short_arg / possible_subcommand) at "
-              "a level with the same arguments and subcommand names, starts an occurrence of exactly that argument resp. "
-              "dispatches to that subcommand - it never produces UnknownArgument/InvalidSubcommand (class: well-formed names, "
-              "typed cluster of known flags, no flag-subcommand resume pending); the parser's lazily built node and the engine's "
-              "node of the fully built tree have the same arguments/settings/subcommand names at the root and after both moved on "
-              "a subcommand name; every visible long, visible alias, short (after '', '-', clusters of flags) and subcommand name "
-              "extending the word is represented, hidden candidates appear only when no visible one does; value candidates of an "
-              "option awaiting a value are exactly the declared possible values extending the last element behind the typed "
-              "delimiter prefix.  The model is tied to clap_complete by running the extracted model and the real crate on the "
-              "same generated cases on every check; an independent python oracle splices each candidate into the line and has "
-              "the real parser accept it.")
+              "the engine's flag resolution equals the parser model's key lookup (same argument), the two models lex every word "
+              "identically, and every offered candidate, given to the parser model's token loop (Parse/Parser.v) at a level with the "
+              "same arguments and subcommand names, starts an occurrence of exactly that argument resp. dispatches to that "
+              "subcommand.  Round 3: SIMULATION of the two state machines along prefixes made of --flag, --opt=v, --opt v, -abc, "
+              "-ov, -o v (C09's class prefix_ok: exact keys, single-valued options without require_equals, values not starting "
+              "with '-' and not subcommand names) and subcommand names: after every item the engine is in ValueDone exactly where "
+              "the parser is in ValuesDone, inside `--opt v` the engine is in Opt(a) exactly where the parser is in PSOpt(a) for "
+              "the same argument, both at related levels (C18_state_agreement_prefix/_open, C18_shadow_line); END TO END "
+              "(C18_candidate_accepted_line): for every such line and every option/subcommand candidate the engine offers at the "
+              "cursor, parse_top on the completed line does not fail with UnknownArgument/InvalidSubcommand (classes decidable: "
+              "lvl18_b, cand_class_b).  Every visible long, visible alias, short (after '', '-', clusters of flags) and subcommand "
+              "name extending the word is represented (arguments with a long name), hidden candidates appear only when no visible "
+              "one does; value candidates of an option awaiting a value are exactly the declared possible values extending the "
+              "last element behind the typed delimiter prefix; candidates without id in state ValueDone/Pos are declared possible "
+              "values of the positional at pos_index (sound for plain words, complete for visible values, hidden ones offered "
+              "unless a visible candidate is); after `--` the shadow parse reads no token as an option (C18_escaped_step) while "
+              "the candidates are not restricted to positionals (C18_escape_only_positionals_refuted, outside the property).  "
+              "The model is tied to clap_complete by running the extracted model "
+              "and the real crate on the same generated cases on every check; an independent python oracle splices each candidate "
+              "into the line and has the real parser accept it.")
 LEVEL_NOTE = ("Trusted: Coq kernel, extraction, OCaml driver, Rust harness, generators; Command::build blocks and assert_app "
               "shared with the parser model.  Differential/oracle only: ordering of candidates; agreement of the shadow parse's "
-              "state with the parser's state along prefixes that contain options (levels are proved, ValueDone<->ValuesDone is "
-              "not); acceptance on whole lines by the real parser; flag subcommands and the generated help subcommand's level; "
-              "custom/path completers not modelled.  Refutation witnesses kept as theorems: an option without long name but with "
-              "a visible alias is not recognised by the shadow parse (C18_same_long_refuted); --alias=<TAB> offers no values "
+              "state with the parser's OUTSIDE the class prefix_ok (multi-value options, terminators, hyphen values, flag "
+              "subcommands, the generated help subtree); acceptance on whole lines by the REAL parser; custom/path completers "
+              "not modelled.  Class boundaries kept as theorems with witnesses replayed on the real crate: require_equals "
+              "(C18_require_equals_refuted: `p --opt <TAB>` offers a value the parser rejects with UnknownArgument); an option "
+              "without long name but with a visible alias is neither recognised by the shadow parse (C18_same_long_refuted) nor "
+              "offered (C18_complete_options_alias_refuted = known finding C18-alias-without-primary); --alias=<TAB> offers no values "
               "(C18_long_alias_value_refuted).")
 
 U64_MAX = 2**64 - 1
